@@ -1,7 +1,7 @@
 -------------------------- MODULE Trace_BenchImport --------------------------
 (* Batch validation of benchmark imports run through the real CLI (C20).  One case per import:
-     isa, mode, file = <<entries>> as written (BenchImport's abstract file; forms carry id, mnem and the
-                       structured operand codes the name was rendered from),
+     isa, mode, file = <<entries>> as written (BenchImport's abstract file; forms carry id, mnem, mkey = mnem in
+                       lower case, and the structured operand codes the name was rendered from),
      obs = [err, forms = << [id, entries = << [ops, tp, lt, new] >>] >>]:
            for every form of the file the entries of the EMITTED model that carry its mnemonic, with
            operands projected, values in micro-cycles (-1 = null) and new = not in the model emitted
@@ -20,6 +20,7 @@ EntriesOf(c, id) == LET hit == { i \in 1..Len(c.obs.forms) : c.obs.forms[i].id =
 \* ("s" documents a scale factor of MORE than 1, any such factor is accepted)
 Matches(c, form, e) == e.ops = DecodeAll(c.isa, form.ops)
 
+SameMnem(c, form) == { c.file[i].form.id : i \in { j \in 1..Len(c.file) : c.file[j].form.mkey = form.mkey } }
 FormClause(c, id) ==
   LET live  == Live(c.file)
       form  == c.file[FormOf(c.file, id)].form
@@ -29,8 +30,10 @@ FormClause(c, id) ==
       Good  == { e \in E : Matches(c, form, e) /\ TPValueOk(live, id, e.tp) /\ LTValueOk(live, id, e.lt) }
   IN IF id \in FormIds(live) THEN
           IF Good # {} /\ Cardinality(NewM) <= 1 THEN "ok"
-          ELSE IF New = {} THEN "form-lost"
-          ELSE IF NewM = {} THEN "operands"
+          ELSE IF NewM = {} THEN
+               \* no new entry decodes to this form: lost, unless every form of the file with this mnemonic
+               \* produced a new entry - then an entry exists but its operands are decoded wrongly
+               (IF Cardinality(New) >= Cardinality(SameMnem(c, form)) THEN "operands" ELSE "form-lost")
           ELSE IF Cardinality(NewM) > 1 THEN "not-merged"
           ELSE IF \A e \in NewM : ~TPValueOk(live, id, e.tp) THEN "tp"
           ELSE "lt"
